@@ -47,10 +47,84 @@ class SimAbort(BaseException):
         self.verdict = verdict
 
 
+class StateIsolation:
+    """Per-process copies of hypnotoad's module-level and class-level state.
+
+    Simulated processes are threads of one interpreter, so a class attribute or module
+    global mutated by one of them would be seen by all - unlike real worker processes,
+    which get a copy at fork() and diverge afterwards.  For whole-grid runs every simulated
+    process therefore owns its own value of every such slot (dict / list / set and plain
+    scalars defined on hypnotoad modules and on classes defined in them): the child's
+    values are deep copies taken at Process.start(), and the slots are swapped whenever
+    the baton changes hands."""
+
+    CONTAINERS = (dict, list, set)
+    SCALARS = (int, float, bool, str, tuple, type(None))
+
+    def __init__(self):
+        self.slots = []
+        self.discover()
+
+    def discover(self):
+        import sys
+
+        seen = {(id(o), n) for o, n in self.slots}
+        for modname, mod in list(sys.modules.items()):
+            if mod is None or not (modname == "hypnotoad" or modname.startswith("hypnotoad.")):
+                continue
+            if modname.startswith("hypnotoad.__version__") or "test_suite" in modname:
+                continue
+            for name, val in list(vars(mod).items()):
+                if name.startswith("__"):
+                    continue
+                if isinstance(val, self.CONTAINERS + self.SCALARS):
+                    if (id(mod), name) not in seen:
+                        self.slots.append((mod, name))
+                elif isinstance(val, type) and getattr(val, "__module__", None) == modname:
+                    for an, av in list(vars(val).items()):
+                        if an.startswith("__") or (id(val), an) in seen:
+                            continue
+                        if isinstance(av, self.CONTAINERS + self.SCALARS):
+                            self.slots.append((val, an))
+                            seen.add((id(val), an))
+
+    def snapshot(self):
+        out = []
+        for owner, name in self.slots:
+            try:
+                out.append(vars(owner)[name])
+            except KeyError:
+                out.append(_MISSING)
+        return out
+
+    def fork_copy(self):
+        import copy
+
+        out = []
+        for v in self.snapshot():
+            if isinstance(v, self.CONTAINERS):
+                try:
+                    v = copy.deepcopy(v)
+                except Exception:  # noqa: BLE001
+                    v = copy.copy(v)
+            out.append(v)
+        return out
+
+    def install(self, store):
+        for (owner, name), v in zip(self.slots, store):
+            if v is _MISSING:
+                continue
+            if vars(owner).get(name, _MISSING) is not v:
+                setattr(owner, name, v)
+
+
+_MISSING = object()
+
+
 class _Part:
     __slots__ = (
         "name", "sem", "state", "killed", "speed", "thread", "blocked_tok",
-        "timed_out", "exit_waiters", "started", "exitcode", "is_main",
+        "timed_out", "exit_waiters", "started", "exitcode", "is_main", "store",
     )
 
     def __init__(self, name, is_main=False):
@@ -66,11 +140,14 @@ class _Part:
         self.started = False
         self.exitcode = None
         self.is_main = is_main
+        self.store = None
 
 
 class ProcSim:
-    def __init__(self, choices, step_cap=100000, keep_log=True, log=None):
+    def __init__(self, choices, step_cap=100000, keep_log=True, log=None, isolate=False):
         from .core import EventLog
+
+        self.iso = StateIsolation() if isolate else None
 
         self.choices = choices
         self.log = log if log is not None else EventLog(keep=keep_log)
@@ -118,6 +195,15 @@ class ProcSim:
             )
         return cur
 
+    def _handover(self, frm, to):
+        """The baton goes from `frm` to `to`: swap the per-process state."""
+        if self.iso is None or frm is to:
+            return
+        if frm is not None:
+            frm.store = self.iso.snapshot()
+        if to.store is not None:
+            self.iso.install(to.store)
+
     def _push(self, t, kind, a=None, b=None):
         self.seq += 1
         heapq.heappush(self.heap, (t, self.seq, kind, a, b))
@@ -145,6 +231,7 @@ class ProcSim:
             raise SimAbort(self.aborted)
         # wake the caller so that it unwinds, then park until shutdown
         main = self.main
+        self._handover(me, main)
         self.current = main
         main.state = "running"
         main.sem.release()
@@ -161,6 +248,7 @@ class ProcSim:
                 # exiting thread: give the baton to the caller
                 if not me.is_main:
                     main = self.main
+                    self._handover(me, main)
                     self.current = main
                     main.state = "running"
                     main.sem.release()
@@ -200,6 +288,7 @@ class ProcSim:
             if part.state != "ready" or part.blocked_tok != tok or part.killed:
                 continue
             part.state = "running"
+            self._handover(me, part)
             self.current = part
             if part is me and returning:
                 return
@@ -458,6 +547,9 @@ class SimProcess:
             daemon=True,
         )
         part.thread.start()
+        if sim.iso is not None:
+            sim.iso.discover()
+            part.store = sim.iso.fork_copy()
         sim._ready(part, sim._delay(part))
         sim.sync(me, "start", part.name, part.speed)
 
